@@ -3,6 +3,7 @@ import ExponaxModel.Proofs.SymbolAlgebra
 import ExponaxModel.Proofs.Symmetry
 import ExponaxModel.Proofs.SymmetryND
 import ExponaxModel.Proofs.SymmetryND2
+import ExponaxModel.Proofs.EquivarianceNDSteps
 /-
 C08 — steppers commute with the symmetries of the periodic box.
 Translation (1-D, one channel, every `N ≥ 1`, every state): forward and inverse shift theorem, equivariance of every
@@ -15,8 +16,8 @@ every linear stepper `irfftn(E ⊙ rfftn u)` commutes with n-D rolls for n steps
 symbol `E` is mapped to the one with `conj E` (velocity `c → −c`); 2-D transposition with permuted anisotropic symbols.
 The property's own caveat ("odd-order linear terms need a Nyquist-free state on even grids for the axis permutation") is
 a THEOREM here: `C08_transpose_counterexample` (advection, N = 4) and the corrected statement with the Nyquist-sign
-hypothesis.  Not proved: nonlinear terms for D ≥ 2 and 3-D axis permutations at the transform level (correspondence +
-oracle).
+hypothesis.  Nonlinear terms in every dimension: `C08_nonlinear_terms_equivariant_nd`, `C08_translation_nd`.  Not proved:
+axis permutations of the nonlinear terms and 3-D axis permutations at the transform level (correspondence + oracle).
 -/
 set_option linter.unusedVariables false
 namespace Exponax
@@ -164,6 +165,73 @@ theorem C08_transpose_counterexample :
       (∀ k0 k1, σ (-k0) (-k1) = (starRingEnd ℂ) (σ k0 k1)) ∧ (u.size = 4 ^ 2 ∧ ∀ j < 4 ^ 2, (u.getD j 0).im = 0) ∧
       SymmetryND.linStep 2 4 (symMul 4 σ) (transpose2 4 u) ≠ transpose2 4 (SymmetryND.linStep 2 4 (symMul 4 σ) u) :=
   transpose2_counterexample
+
+/-! ### every NONLINEAR term, every dimension, every channel count, every shift vector, arbitrary spectra
+(`Proofs/EquivarianceND*.lean`): `EquivND.shiftMC` multiplies every channel's spectrum by the n-D phases -/
+
+/-- convection (all four option combinations), polynomial, any pointwise reaction (Gray–Scott, BZ, …), gradient norm,
+    general, Cahn–Hilliard, 2-D vorticity and 3-D rotational terms without injection are translation equivariant -/
+theorem C08_nonlinear_terms_equivariant_nd (c : Cfg ℂ) (hN : 0 < c.N) (C : ℕ) (scale s0 s1 s2 : ℂ)
+    (single conservative zeroFix : Bool) (coeffs : List ℂ) (react : List ℂ → List ℂ) (s : List ℤ) (uh : MC ℂ)
+    (ch h : ℕ) (hh : h < modes c) :
+    (at2 (convection c C scale single conservative (EquivND.shiftMC c.D c.N s uh)) ch h
+      = SymmetryND.shiftPhaseND c.D c.N s h * at2 (convection c C scale single conservative uh) ch h) ∧
+    (at2 (polynomial c C coeffs (EquivND.shiftMC c.D c.N s uh)) ch h
+      = SymmetryND.shiftPhaseND c.D c.N s h * at2 (polynomial c C coeffs uh) ch h) ∧
+    (at2 (reaction c C react (EquivND.shiftMC c.D c.N s uh)) ch h
+      = SymmetryND.shiftPhaseND c.D c.N s h * at2 (reaction c C react uh) ch h) ∧
+    (at2 (gradientNorm c C scale zeroFix (EquivND.shiftMC c.D c.N s uh)) ch h
+      = SymmetryND.shiftPhaseND c.D c.N s h * at2 (gradientNorm c C scale zeroFix uh) ch h) ∧
+    (at2 (general c C s0 s1 s2 zeroFix (EquivND.shiftMC c.D c.N s uh)) ch h
+      = SymmetryND.shiftPhaseND c.D c.N s h * at2 (general c C s0 s1 s2 zeroFix uh) ch h) ∧
+    (at2 (cahnHilliard c scale (EquivND.shiftMC c.D c.N s uh)) ch h
+      = SymmetryND.shiftPhaseND c.D c.N s h * at2 (cahnHilliard c scale uh) ch h) ∧
+    (at2 (vorticity2d c scale none (EquivND.shiftMC c.D c.N s uh)) ch h
+      = SymmetryND.shiftPhaseND c.D c.N s h * at2 (vorticity2d c scale none uh) ch h) ∧
+    (at2 (projected3d c none (EquivND.shiftMC c.D c.N s uh)) ch h
+      = SymmetryND.shiftPhaseND c.D c.N s h * at2 (projected3d c none uh) ch h) :=
+  ⟨EquivND.convection_equivariant_nd c hN C scale single conservative s uh ch h hh,
+   EquivND.polynomial_equivariant_nd c hN C coeffs s uh ch h hh,
+   EquivND.reaction_equivariant_nd c hN C react s uh ch h hh,
+   EquivND.gradientNorm_equivariant_nd c hN C scale zeroFix s uh ch h hh,
+   EquivND.general_equivariant_nd c hN C s0 s1 s2 zeroFix s uh ch h hh,
+   EquivND.cahnHilliard_equivariant_nd c hN scale s uh ch h hh,
+   EquivND.vorticity2d_equivariant_nd c hN scale s uh ch h hh,
+   EquivND.projected3d_equivariant_nd c hN s uh ch h hh⟩
+
+/-- Kolmogorov forcing restricts the translations to the forcing's invariant direction: shifts along axis 1 by whole
+    forcing periods (`N ∣ m·s₁`), arbitrary along the other axes — exactly the property's clause -/
+theorem C08_forced_terms_equivariant (c : Cfg ℂ) (hN : 0 < c.N) (scale : ℂ) (m : ℕ) (gam : ℂ) (s : List ℤ)
+    (hs : (c.N : ℤ) ∣ (m : ℤ) * s.getD 1 0) (uh : MC ℂ) (ch h : ℕ) (hh : h < modes c) :
+    (c.D = 2 → at2 (vorticity2d c scale (some (m, gam)) (EquivND.shiftMC c.D c.N s uh)) ch h
+      = SymmetryND.shiftPhaseND c.D c.N s h * at2 (vorticity2d c scale (some (m, gam)) uh) ch h) ∧
+    (c.D = 3 → at2 (projected3d c (some (m, gam)) (EquivND.shiftMC c.D c.N s uh)) ch h
+      = SymmetryND.shiftPhaseND c.D c.N s h * at2 (projected3d c (some (m, gam)) uh) ch h) :=
+  ⟨fun hD => EquivND.vorticity2d_inj_equivariant_nd c hD hN scale m gam s hs uh ch h hh,
+   fun hD => EquivND.projected3d_inj_equivariant_nd c hD hN m gam s hs uh ch h hh⟩
+
+/-- THE PROPERTY (translations): `n` steps of ETDRK4 with ANY translation-equivariant multi-channel term, arbitrary
+    coefficient arrays, commute with the n-D roll of the physical multi-channel state — every D, every N, arbitrary
+    states; orders 1–3 and rollouts are `EquivND.E?_physical_translation_nd` / `E?step_rollout_translation_nd` -/
+theorem C08_translation_nd (c : Cfg ℂ) (hN : 0 < c.N) (s : List ℤ) (C : ℕ) (T : MC ℂ → MC ℂ)
+    (hT : EquivND.TermEquivariant c s T) (E Eh c1 c2 c3 c4 c5 c6 : ℕ → ℕ → ℂ) (n : ℕ) (u : MC ℂ) (ch : ℕ) :
+    EquivND.physCh c.D c.N ((E4step E Eh c1 c2 c3 c4 c5 c6 (EquivND.liftTermND c C T))^[n]
+        (EquivND.specMC c.D c.N (EquivND.rollMC c.D c.N s u))) ch =
+      SymmetryND.rollND c.D c.N (EquivND.physCh c.D c.N ((E4step E Eh c1 c2 c3 c4 c5 c6 (EquivND.liftTermND c C T))^[n]
+        (EquivND.specMC c.D c.N u)) ch) s :=
+  EquivND.E4_physical_translation_nd c hN s C T hT E Eh c1 c2 c3 c4 c5 c6 n u ch
+
+/-- written out on the transforms for multi-channel convection (Burgers / KdV / KS-conservative in D dimensions) -/
+theorem C08_convection_translation_nd (c : Cfg ℂ) (hN : 0 < c.N) (C : ℕ) (scale : ℂ) (single conservative : Bool)
+    (s : List ℤ) (E Eh c1 c2 c3 c4 c5 c6 : ℕ → ℕ → ℂ) (n : ℕ) (u : MC ℂ) (ch : ℕ) :
+    irfftnM c.D c.N (tab (Layout.numModes c.D c.N)
+        ((E4step E Eh c1 c2 c3 c4 c5 c6 (EquivND.liftTermND c C (convection c C scale single conservative)))^[n]
+          (fun ch h => (rfftnM c.D c.N ((u.map fun v => SymmetryND.rollND c.D c.N v s).getD ch #[])).getD h 0) ch)) =
+      SymmetryND.rollND c.D c.N (irfftnM c.D c.N (tab (Layout.numModes c.D c.N)
+        ((E4step E Eh c1 c2 c3 c4 c5 c6 (EquivND.liftTermND c C (convection c C scale single conservative)))^[n]
+          (fun ch h => (rfftnM c.D c.N (u.getD ch #[])).getD h 0) ch))) s :=
+  EquivND.E4_convection_physical_translation_nd c hN C scale single conservative s E Eh c1 c2 c3 c4 c5 c6 n u ch
+
 
 example : (0 : ℕ) < 8 := by decide
 
